@@ -30,6 +30,6 @@ CHECKS = {
     "C17": eng(Q(8, 3000), Q(16, 30000, timeout=3000), fuzz=[("FuzzEntityBinary", 40), ("FuzzEntityJSON", 40)]),
     "C18": eng(Q(8, 2000), Q(16, 20000, timeout=3000), variants=[{"tags": ["verif"]}, {"tags": ["verif", "ark_tiny"]}]),
     "C19": eng(Q(8, 3000), Q(16, 30000, timeout=3000)),
-    "C20": eng(Q(4, 300), Q(16, 8000, timeout=3000),
+    "C20": eng(Q(8, 300), Q(16, 8000, timeout=3000),
                arkrun=[("default", ["verif"]), ("tiny", ["verif", "ark_tiny"]), ("debug", ["verif", "ark_debug"]), ("tiny_debug", ["verif", "ark_tiny", "ark_debug"])]),
 }
